@@ -117,6 +117,8 @@ class Inliner:
             if hs is not None and self._has_self(hs):
                 call._recv = f.value
                 return hs, True
+        if isinstance(f, ast.Name) and f.id in getattr(self, '_nested', {}):
+            return self._nested[f.id], False          # a local (nested) helper of the function being expanded
         if isinstance(f, ast.Name):
             r = self.repo.resolve_name(fi.module, f.id)
             if r is not None and hasattr(r, 'params') and r.cls is None and \
@@ -252,9 +254,62 @@ class Inliner:
         return prelude, body, tag
 
     # ------------------------------------------------------------------ expansion of one function
+    def _nested_helpers(self, fi, node):
+        """nested defs of `node` that read, besides their own parameters and locals, only names the enclosing
+        function never rebinds: they can be spliced in like private module-level helpers"""
+        from .loader import FuncInfo
+        out = {}
+        stores = {}
+        nested = [st for st in node.body if isinstance(st, ast.FunctionDef) and not st.decorator_list]
+        if not nested:
+            return out
+        for n in ast.walk(node):
+            if isinstance(n, ast.Name) and isinstance(n.ctx, (ast.Store, ast.Del)):
+                stores.setdefault(n.id, []).append(n)
+        for g in nested:
+            own = {a.arg for a in g.args.posonlyargs + g.args.args + g.args.kwonlyargs}
+            own |= {x.id for x in ast.walk(g) if isinstance(x, ast.Name) and isinstance(x.ctx, (ast.Store, ast.Del))}
+            free = {x.id for x in ast.walk(g) if isinstance(x, ast.Name) and isinstance(x.ctx, ast.Load)} - own
+            inside = {id(x) for x in ast.walk(g)}
+            if any(any(id(s_) not in inside for s_ in stores.get(v, [])) for v in free) or g.name in stores:
+                continue
+            # only plain calls may refer to it
+            refs = [x for x in ast.walk(node) if isinstance(x, ast.Name) and x.id == g.name and id(x) not in inside]
+            calls = [x for x in ast.walk(node) if isinstance(x, ast.Call) and isinstance(x.func, ast.Name) and
+                     x.func.id == g.name and id(x) not in inside]
+            if len(refs) != len(calls) or not calls:
+                continue
+            out[g.name] = FuncInfo(fi.module, None, g)
+        return out
+
     def expand(self, fi, depth=0):
         node = copy.deepcopy(fi.raw_node)
         changed = [False]
+        self._nested = self._nested_helpers(fi, node)
+        if self._nested:
+            try:
+                return self._expand_with_nested(fi, node, changed)
+            finally:
+                self._nested = {}
+        return self._expand_plain(fi, node, changed)
+
+    def _expand_with_nested(self, fi, node, changed):
+        names = set(self._nested)
+        defs_ = [st for st in node.body if isinstance(st, ast.FunctionDef) and st.name in names]
+        node.body = [st for st in node.body if st not in defs_]
+        out, any_change = self._expand_plain(fi, node, changed)
+        # a nested helper that is still referred to (a call that could not be inlined) stays defined
+        left = {x.id for x in ast.walk(out) if isinstance(x, ast.Name) and x.id in names}
+        if left:
+            keep = [d for d in defs_ if d.name in left]
+            doc = 1 if out.body and isinstance(out.body[0], ast.Expr) and isinstance(out.body[0].value, ast.Constant) else 0
+            out.body[doc:doc] = keep
+        if len(left) < len(names):
+            any_change = True
+        ast.fix_missing_locations(out)
+        return out, any_change
+
+    def _expand_plain(self, fi, node, changed):
         node.body = self._expand_block(fi, node.body, changed)
         any_change = changed[0]
         rounds = 0
